@@ -20,6 +20,9 @@ import os
 import sys
 
 MAX_DRAWS = 600_000
+# a test whose code contains one of these builds a set (a literal, a constructor call, or the corpus function returning a
+# set); iterating such a value inside the SUT follows the string hash, which is the SUT's behaviour, not Pynguin's
+SET_SOURCES = ("{", "set(", "uniq(")
 _STATE: dict = {}
 
 
@@ -58,7 +61,7 @@ def install(events, spec):
         if sid is None:
             sid = len(stack_list)
             stacks[tkey] = sid
-            stack_list.append([f"{os.path.basename(c.co_filename)}:{c.co_qualname}" for c in key[:14]])
+            stack_list.append([f"{os.path.basename(c.co_filename)}:{c.co_qualname}" for c in key])
         draws.append(sid)
         bits.append(k)
 
@@ -87,12 +90,32 @@ def install(events, spec):
 
     orig_execute = ex.TestCaseExecutor.execute
 
+    trace_detail = bool(os.environ.get("VERIF_TRACE"))
+    import hashlib
+
+    def fingerprint(test_case, result):
+        """(test code, hash of the code, hash of what the search can see of the result, that view as text)."""
+        try:
+            code = test_case.to_code()
+        except Exception as e:  # noqa: BLE001
+            code = f"<to_code failed {type(e).__name__}>"
+        tr = result.execution_trace
+        seen = repr((sorted((k, type(v).__name__) for k, v in result.exceptions.items()),
+                     sorted(tr.executed_code_objects), sorted(tr.executed_predicates.items()),
+                     sorted(tr.true_distances.items()), sorted(tr.false_distances.items()), sorted(tr.covered_line_ids)))
+        return code, hashlib.sha1(code.encode()).hexdigest()[:10], hashlib.sha1(seen.encode()).hexdigest()[:10], seen
+
     def execute(self, test_case):
+        # record: [draw index at entry, size, timed out, code hash, result hash, test builds a set, (code, result view)]
         at, size = len(draws), test_case.size()
         result = orig_execute(self, test_case)
         state["exec_calls"] = state.get("exec_calls", 0) + 1
         if len(execs) < MAX_DRAWS:
-            execs.append([at, size, 1 if result.timeout else 0])
+            code, ch, rh, seen = fingerprint(test_case, result)
+            rec = [at, size, 1 if result.timeout else 0, ch, rh, 1 if any(tok in code for tok in SET_SOURCES) else 0]
+            if trace_detail and len(execs) < 4000:
+                rec += [code, seen[:1500]]
+            execs.append(rec)
         return result
 
     ex.TestCaseExecutor.execute = execute
@@ -183,6 +206,114 @@ def first_exec_divergence(a, b):
         n = min(len(ea), len(eb))
         return {"index": n, "a": ea[n] if len(ea) > n else None, "b": eb[n] if len(eb) > n else None}
     return None
+
+
+def divergence_site(d):
+    """The function in which the two runs parted: the diverging draw's own site when both runs draw from the same
+    function; the site of the last common draw when one of the runs continues there (a loop that runs longer in one
+    run); otherwise the deepest caller frame the two stacks share."""
+    if d["site_a"] == d["site_b"]:
+        return d["site_a"]
+    prev = site_name(d["prev_stack"]) if d.get("prev_stack") else None
+    if prev is not None and prev in (d["site_a"], d["site_b"]):
+        return prev
+    sa, sb = list(reversed(d["stack_a"])), list(reversed(d["stack_b"]))
+    common = []
+    for x, y in zip(sa, sb):
+        if x != y:
+            break
+        common.append(x)
+    return site_name(list(reversed(common))) if common else "|".join(sorted((d["site_a"], d["site_b"])))
+
+
+def line_construct(line):
+    """Coarse syntactic class of a line of a generated test file (for output-order keys)."""
+    t = line.strip()
+    if t.startswith(("import ", "from ")):
+        return "import"
+    if t.startswith("@"):
+        return "decorator"
+    if t.startswith("def "):
+        return "test-function"
+    if t.startswith("assert "):
+        return "assert:" + ("set-or-dict-literal" if "{" in t else "isinstance" if "isinstance" in t else "approx" if "approx" in t else "other")
+    if t.startswith("with "):
+        return "with-raises"
+    if t.startswith("#") or not t:
+        return "comment-or-blank"
+    if "{" in t:
+        return "statement:set-or-dict-literal"
+    return "statement"
+
+
+def first_output_difference(files_a, files_b):
+    names = sorted(set(files_a) | set(files_b))
+    for n in names:
+        x, y = files_a.get(n), files_b.get(n)
+        if x == y:
+            continue
+        if x is None or y is None:
+            return {"file": n, "construct": "file-missing", "line_a": None, "line_b": None, "lineno": 0}
+        la, lb = x.splitlines(), y.splitlines()
+        for i in range(max(len(la), len(lb))):
+            p, q = (la[i] if i < len(la) else None), (lb[i] if i < len(lb) else None)
+            if p != q:
+                c = line_construct(p if p is not None else q)
+                if p is not None and q is not None and line_construct(q) != c:
+                    c = "|".join(sorted((c, line_construct(q))))
+                return {"file": n, "construct": c, "line_a": p, "line_b": q, "lineno": i + 1}
+        return {"file": n, "construct": "trailing-bytes", "line_a": None, "line_b": None, "lineno": 0}
+    return None
+
+
+def diagnose(res_a, res_b):
+    """Compare two finished runs of the same spec.  Returns {"kind": ..., "key": ..., ...}:
+      same                 files, draw logs and execution logs identical
+      timing               the same test, entered after the same draws, timed out in one run only
+      sut-hash-order       the same test (building a set) produced a different trace: the SUT's own iteration order
+      exec-result          the same test (no set anywhere) produced a different trace
+      generation           a different test was executed although all draws before were identical
+      draws                first diverging draw names the site
+      output-only          logs identical, files differ
+    "files_same" tells whether the property's observable differs at all."""
+    ta, tb = tap_of(res_a), tap_of(res_b)
+    out = {"files_same": res_a.get("files") == res_b.get("files")}
+    d = first_divergence(ta, tb)
+    e = first_exec_divergence(ta, tb)
+    out["draw_divergence"] = None if d is None else {k: d[k] for k in ("index", "site_a", "site_b", "len_a", "len_b", "bits_a", "bits_b")}
+    out["exec_divergence"] = None if e is None else {"index": e["index"], "a": (e["a"] or [])[:6], "b": (e["b"] or [])[:6]}
+    if out["files_same"] and d is None and e is None:
+        out.update(kind="same", key=None)
+        return out
+    if e and e["a"] and e["b"] and e["a"][0] == e["b"][0] and (d is None or e["a"][0] <= d["index"]):
+        A, B = e["a"], e["b"]
+        if len(A) > 6:
+            out["exec_detail"] = {"code_a": A[6], "seen_a": A[7], "code_b": B[6] if len(B) > 6 else None, "seen_b": B[7] if len(B) > 7 else None}
+        if A[1] == B[1] and A[3] == B[3]:
+            if A[2] != B[2]:
+                out.update(kind="timing", key=f"timing:timeout-flag-differs:{'empty-test' if A[1] == 0 else 'nonempty-test'}")
+                return out
+            if A[4] != B[4]:
+                if A[5]:
+                    out.update(kind="sut-hash-order", key="sut-hash-order:test-builds-a-set")
+                else:
+                    out.update(kind="exec-result", key="exec-result-differs:same-test-code")
+                return out
+        else:
+            k = A[0]
+            before = site_name(ta["stacks"][ta["draws"][k - 1]]) if k else "<before-first-draw>"
+            out.update(kind="generation", key=f"same-draws-different-test:{before}")
+            return out
+    if d is not None:
+        out.update(kind="draws", key=f"diverges-at:{divergence_site(d)}", stack_a=d["stack_a"][:10], stack_b=d["stack_b"][:10])
+        return out
+    fo = first_output_difference(res_a.get("files", {}), res_b.get("files", {}))
+    out["output_difference"] = fo
+    if fo is None:
+        out.update(kind="exec-only", key="executions-differ-after-last-draw")
+    else:
+        out.update(kind="output-only", key=f"output-order:{fo['construct']}")
+    return out
 
 
 # ------------------------------------------------------------------------------------------------
